@@ -63,7 +63,7 @@ var effectPrims = map[string]bool{
 // external functions without side effects on memory we track
 var purePrefixes = []string{
 	"strings.", "strconv.", "errors.Join", "errors.New", "slices.BinarySearch", "slices.Clone", "slices.Equal",
-	"slices.Contains", "slices.Index", "unicode/utf8.", "unicode.", "net/netip.", "(net/netip.Addr).",
+	"slices.Contains", "slices.Index", "sort.SearchStrings", "sort.SearchInts", "slices.IndexFunc", "slices.Max", "slices.Min", "slices.IsSorted", "sort.StringsAreSorted", "unicode/utf8.", "unicode.", "net/netip.", "(net/netip.Addr).",
 	"golang.org/x/net/http/httpguts.", "golang.org/x/net/publicsuffix.",
 	"(*golang.org/x/net/idna.Profile).ToASCII", "fmt.Sprintf", "fmt.Sprint", "math.", "math/bits.",
 }
